@@ -41,7 +41,24 @@ def anchors():
     if _ANCHORS is None:
         here = os.path.dirname(os.path.abspath(__file__))
         names = set()
-        files = glob.glob(os.path.join(here, 'rules', '*.py')) + [os.path.join(here, f) for f in ('tables.py', 'strsem.py', 'match.py')]
+        files = sorted(glob.glob(os.path.join(here, 'rules', '*.py'))) + [os.path.join(here, f) for f in ('tables.py', 'strsem.py', 'match.py')]
+        # (the vocabulary is a pure function of the rule sources: kept next to them with their digest, recomputed when they change)
+        import hashlib
+        import json
+        h = hashlib.sha256()
+        for f in files:
+            try:
+                h.update(open(f, 'rb').read())
+            except OSError:
+                pass
+        cache = os.path.join(here, 'anchors.json')
+        try:
+            c = json.load(open(cache))
+            if c.get('digest') == h.hexdigest():
+                _ANCHORS = set(c['names'])
+                return _ANCHORS
+        except (OSError, ValueError):
+            pass
         for f in files:
             try:
                 tree = ast.parse(open(f).read())
@@ -58,6 +75,10 @@ def anchors():
                 if isinstance(n, ast.Constant) and isinstance(n.value, str) and len(n.value) < 200:
                     names.update(re.findall(r'[A-Za-z_][A-Za-z0-9_]*', n.value))
         _ANCHORS = names
+        try:
+            json.dump({'digest': h.hexdigest(), 'names': sorted(names)}, open(cache, 'w'))
+        except OSError:
+            pass
     return _ANCHORS
 
 
@@ -1581,6 +1602,8 @@ def unroll_literal_tables(trees):
         if not any(isinstance(x, (ast.For, ast.ListComp)) for x in ast.walk(tree)):
             continue
         for fn in [x for x in ast.walk(tree) if isinstance(x, (ast.FunctionDef, ast.AsyncFunctionDef))]:
+            if not any(isinstance(x, ast.For) and isinstance(x.iter, (ast.List, ast.Tuple, ast.Name)) and isinstance(x.target, (ast.Tuple, ast.List)) for x in ast.walk(fn)):
+                continue
             before = n
             fn.body = unroll_block(fn.body, fn)
             if n != before:
